@@ -52,7 +52,7 @@ NODEP == <<"nodep">>
 
 Vars(p) == IF p = "app" THEN <<IF proj.usesV THEN proj.V ELSE 9, IF proj.dep THEN proj.pv ELSE 9>>
            ELSE <<9, 9>>
-VIdS(p) == <<"vs", p>>
+VIdS(p) == IF p = "app" THEN <<"vs", "app", proj.src["app"]>> ELSE <<"vs", "lib", 0>>
 VIdBlib == <<"vb", proj.bver["lib"], Vars("lib"), VIdS("lib"), NODEP>>
 VIdDlib == <<"vd", proj.pver["lib"], VIdBlib>>
 VIdB(p) == IF p = "lib" THEN VIdBlib
@@ -193,16 +193,33 @@ PrepDone ==
   /\ NextStep /\ WS /\ ST /\ Knobs /\ Ctr /\ NoHist /\ UNCHANGED created
 
 ----------------------------------------------------------------------------
-(* _cookCheckoutStep with an import SCM (indeterministic, prune), 1162-1366 *)
+(* _cookCheckoutStep, 1162-1366.  lib: import SCM (indeterministic: runs every time, prune+copy).
+   app: deterministic checkoutScript whose text is versioned by src["app"] (it changes the
+   variant-id); it runs only when the stored checkout state differs. *)
+
+Deterministic(p) == p = "app"
+ScmFull(p) == <<"scmfull", VIdS(p)>>
 
 \* 1172-1179: create directory, reset state
 CoStart ==
   /\ Running("co") /\ pc = "start"
   /\ LET d == S(CurP) IN
      IF ~ex[d] THEN /\ ex' = [ex EXCEPT ![d] = TRUE] /\ cont' = [cont EXCEPT ![d] = EMPTY]
-                    /\ Reset(d, <<"scm">>)
+                    /\ Reset(d, <<"scm0">>)
                ELSE WS /\ ST
-  /\ pc' = "forge" /\ Flow /\ Knobs /\ Ctr /\ NoHist /\ UNCHANGED created
+  /\ pc' = "reason" /\ Flow /\ Knobs /\ Ctr /\ NoHist /\ UNCHANGED created
+
+\* 1226-1240: initial checkout / indeterministic / recipe changed (also: previous run did not complete)
+CoReason ==
+  /\ Running("co") /\ pc = "reason"
+  /\ pc' = IF ~Deterministic(CurP) \/ dst[S(CurP)] # ScmFull(CurP) THEN "store" ELSE "setres"
+  /\ Flow /\ WS /\ ST /\ Knobs /\ Ctr /\ NoHist /\ UNCHANGED created
+
+\* 1309: store the SCM state without the script state so that a failing step runs again
+CoStore ==
+  /\ Running("co") /\ pc = "store"
+  /\ dst' = [dst EXCEPT ![S(CurP)] = IF "CheckoutStateBeforeRun" \in Weak THEN ScmFull(CurP) ELSE <<"scmpartial">>]
+  /\ pc' = "forge" /\ Flow /\ WS /\ UNCHANGED <<res, inp, vid>> /\ Knobs /\ Ctr /\ NoHist /\ UNCHANGED created
 
 \* 1317-1319: forge result before running
 CoForge ==
@@ -210,19 +227,36 @@ CoForge ==
   /\ res' = [res EXCEPT ![S(CurP)] = IF @ = NONE THEN NONE ELSE TS]
   /\ pc' = "run" /\ Flow /\ WS /\ UNCHANGED <<inp, dst, vid>> /\ Knobs /\ Ctr /\ NoHist /\ UNCHANGED created
 
-\* 1323: prune + copy of the import source
+\* 1323: prune + copy of the import source / the checkout script regenerates its files
 CoRun ==
   /\ Running("co") /\ pc = "run"
   /\ cont' = [cont EXCEPT ![S(CurP)] = CleanS(CurP)]
-  /\ pc' = "commit" /\ Flow /\ UNCHANGED ex /\ ST /\ Knobs /\ Ctr /\ NoHist /\ UNCHANGED created
+  /\ ranInQuiet' = (ranInQuiet \/ (quiet /\ Deterministic(CurP)))
+  /\ pc' = "commit" /\ Flow /\ UNCHANGED ex /\ ST /\ Knobs /\ NoHist /\ UNCHANGED <<created, ninv, nkill, nfail, lastOk, quiet>>
 
-\* 1328-1330
+\* the checkout script fails after partial output
+CoRunFail ==
+  /\ Running("co") /\ pc = "run" /\ Deterministic(CurP) /\ nfail < MaxFail
+  /\ cont' = [cont EXCEPT ![S(CurP)] = PARTIAL]
+  /\ mode' = "idle" /\ todo' = <<>> /\ pc' = "start" /\ nfail' = nfail + 1 /\ quiet' = FALSE /\ lastOk' = FALSE
+  /\ Hist([a |-> "Fail", k |-> "co", p |-> CurP])
+  /\ UNCHANGED ex /\ ST /\ Knobs /\ UNCHANGED <<created, ninv, nkill, ranInQuiet>>
+
+CoRunKilled ==
+  /\ Running("co") /\ pc = "run" /\ Deterministic(CurP) /\ nkill < MaxKill
+  /\ cont' = [cont EXCEPT ![S(CurP)] = PARTIAL]
+  /\ mode' = "idle" /\ todo' = <<>> /\ pc' = "start" /\ nkill' = nkill + 1 /\ quiet' = FALSE /\ lastOk' = FALSE
+  /\ Hist([a |-> "Kill", k |-> "co", p |-> CurP, at |-> "script"])
+  /\ UNCHANGED ex /\ ST /\ Knobs /\ UNCHANGED <<created, ninv, nfail, ranInQuiet>>
+
+\* 1328-1330: reflect the new checkout state
 CoCommit ==
   /\ Running("co") /\ pc = "commit"
+  /\ dst' = [dst EXCEPT ![S(CurP)] = ScmFull(CurP)]
   /\ vid' = [vid EXCEPT ![S(CurP)] = VIdS(CurP)]
-  /\ pc' = "setres" /\ Flow /\ WS /\ UNCHANGED <<res, inp, dst>> /\ Knobs /\ Ctr /\ NoHist /\ UNCHANGED created
+  /\ pc' = "setres" /\ Flow /\ WS /\ UNCHANGED <<res, inp>> /\ Knobs /\ Ctr /\ NoHist /\ UNCHANGED created
 
-\* 1337-1346
+\* 1337-1346: always rehash
 CoSetRes ==
   /\ Running("co") /\ pc = "setres"
   /\ res' = [res EXCEPT ![S(CurP)] = H(cont[S(CurP)])]
@@ -388,7 +422,7 @@ Done == mode = "idle" /\ ninv = MaxInv /\ UNCHANGED vars
 Next ==
   \/ Edit \/ Begin \/ End \/ Kill
   \/ PrepStart \/ PrepInval \/ PrepPrune \/ PrepReset \/ PrepDone
-  \/ CoStart \/ CoForge \/ CoRun \/ CoCommit \/ CoSetRes
+  \/ CoStart \/ CoReason \/ CoStore \/ CoForge \/ CoRun \/ CoRunFail \/ CoRunKilled \/ CoCommit \/ CoSetRes
   \/ BuStart \/ BuInval \/ BuPrune \/ BuReset \/ BuSkip \/ BuInv1 \/ BuInv2 \/ BuCommit3First
   \/ BuRunOk \/ BuRunFail \/ BuRunKilled \/ BuC1 \/ BuC2 \/ BuC3
   \/ PkStart \/ PkSkip \/ PkInv1 \/ PkInv2 \/ PkRunOk \/ PkRunFail \/ PkRunKilled \/ PkC1 \/ PkC2 \/ PkC3
